@@ -123,7 +123,7 @@ func genCors(r *Rng) Sx {
 	reqs := Ls{}
 	for k := 0; k < nreq; k++ {
 		q := genSimpleRequest(r, routes)
-		q.Method = r.Pick([]string{"GET", "POST", "OPTIONS", "OPTIONS", "OPTIONS", "DELETE"})
+		q.Method = r.Pick([]string{"GET", "POST", "OPTIONS", "OPTIONS", "OPTIONS", "DELETE", "HEAD"})
 		o := origin
 		if k > 0 && r.Pct(30) {
 			o = nearOrigin(r, domains)
